@@ -97,14 +97,27 @@ def strip_comments(src: str) -> str:
     return re.sub(r"--[^\n]*", "", src)
 
 
-def lean_sources(pid: str):
-    """Files whose content the property's proof depends on (own files + shared ones)."""
-    out = []
-    for sub in ("Model", "Spec", "Lemmas", "Props", "Gen", "Driver"):
-        d = LEAN / "CsVerif" / sub
-        if d.is_dir():
-            out += sorted(d.glob("*.lean"))
-    return out
+def lean_sources(pid: str, extra=()):
+    """Files whose content the property's proofs and model driver depend on: the import closure (within CsVerif) of
+    Props/<pid>.lean, the extra theorem files of the property and Driver/<pid>.lean.  (Another property's unfinished file is
+    not this property's business; a `sorry` this property DOES depend on also shows up as `sorryAx` in the axiom audit.)"""
+    roots = [LEAN / "CsVerif" / "Props" / f"{pid}.lean", LEAN / "CsVerif" / "Driver" / f"{pid}.lean"]
+    roots += [LEAN / "CsVerif" / e for e in extra]
+    seen, todo = {}, [r for r in roots if r.exists()]
+    while todo:
+        f = todo.pop()
+        if f in seen:
+            continue
+        seen[f] = True
+        try:
+            txt = f.read_text()
+        except OSError:
+            continue
+        for m in re.finditer(r"^import\s+CsVerif\.([\w.]+)", txt, flags=re.M):
+            g = LEAN / "CsVerif" / (m.group(1).replace(".", "/") + ".lean")
+            if g.exists() and g not in seen:
+                todo.append(g)
+    return sorted(seen)
 
 
 def theorems_in(path: Path):
@@ -282,7 +295,7 @@ def _lean_phase(mod, tier: str):
                 res["ok"] = False
                 res["broken"].append("leanchecker rejected " + " ".join(mods) + ": " + (pc.stdout + pc.stderr)[-300:])
     # forbidden tokens
-    for f in lean_sources(pid):
+    for f in lean_sources(pid, getattr(mod, "EXTRA_PROP_FILES", [])):
         if FORBIDDEN.search(strip_comments(f.read_text())):
             res["ok"] = False
             res["broken"].append(f"forbidden token (sorry/axiom/native_decide/…) in {f.relative_to(LEAN)}")
